@@ -1,6 +1,7 @@
 use crate::codegen::symbols::SymbolIndex;
 use crate::codegen::ProgramCounter;
 use crate::parser::code_map::{CodeMap, Span};
+use crate::parser::Identifier;
 use std::ops::Range;
 
 #[derive(Debug, Default)]
@@ -12,7 +13,10 @@ pub struct SourceMap {
 pub struct SourceMapOffset {
     pub scope: SymbolIndex,
     pub span: Span,
+    /// The target addresses of the emitted bytes
     pub pc: Range<usize>,
+    /// The segment the bytes were emitted to
+    pub segment: Identifier,
 }
 
 impl SourceMap {
@@ -24,11 +28,19 @@ impl SourceMap {
         &self.offsets
     }
 
-    pub fn add(&mut self, scope: SymbolIndex, span: Span, pc: ProgramCounter, len: usize) {
+    pub fn add(
+        &mut self,
+        scope: SymbolIndex,
+        span: Span,
+        segment: &Identifier,
+        pc: ProgramCounter,
+        len: usize,
+    ) {
         let offset = SourceMapOffset {
             scope,
             span,
             pc: pc.as_usize()..(pc.as_usize() + len),
+            segment: segment.clone(),
         };
         self.offsets.push(offset);
     }
